@@ -41,6 +41,24 @@ CHECKS.update({
                 ref="DESIGN.md §5 C07"),
 })
 
+CHECKS.update({
+    "C11": dict(technique="fault-injecting Read implementations (short reads, Interrupted, hard errors, early EOF) with a model of the script as oracle; file lattice around the mmap threshold with three-way agreement + specmodel; special paths; strace evidence of the path taken",
+                text="Scripted readers and real files drive update_reader/update_mmap/update_mmap_rayon/Write; result kind, bytes absorbed before an error, absence of polls after the terminator and the final hash are compared with the model.",
+                ref="DESIGN.md §5 C11"),
+    "C14": dict(technique="decomposed enumeration of the Hash value space (every byte value at every position, all single-bit neighbours), exhaustive enumeration of hex-string mutations and lengths, serde JSON/CBOR round trips, byte-level oracle",
+                text="All conversions and the three equality impls are checked against byte-level definitions; the finite hex-mutation and length spaces are enumerated completely.",
+                ref="DESIGN.md §5 C14"),
+    "C15": dict(technique="reference_impl histories vs specmodel and the optimized crate; exhaustive recomputation of every field of test_vectors.json by specmodel and, independently, by pyspec",
+                text="reference_impl::Hasher is driven with hostile update splits and output lengths; the JSON file is a finite space and is checked completely by two independent models.",
+                ref="DESIGN.md §5 C15"),
+    "C16": dict(technique="twin-execution monitor: histories through every RustCrypto trait method interleaved with inherent calls, outputs and post-state vs specmodel; HMAC from the definition; guts API vs specmodel chunk/parent nodes",
+                text="After every trait call the instance must behave like a hasher of the model's bytes (resetting variants included); guts::ChunkState/parent_cv are compared with the model for all counter classes and lengths.",
+                ref="DESIGN.md §5 C16"),
+    "C17": dict(technique="non-interference monitor over Debug output (two secret assignments per public history) + post-zeroize residue scan of raw object bytes against every secret-derived value computed by specmodel, with positive controls",
+                text="Debug strings must be a function of public data only; after zeroize() no 8-byte window of key, chaining-value, buffered-input or output data may remain anywhere in the object's memory.",
+                ref="DESIGN.md §5 C17"),
+})
+
 NOT_YET = {}
 
 def main():
